@@ -13,6 +13,7 @@ import (
 	"encoding/binary"
 	"encoding/json"
 	"fmt"
+	"io"
 	"time"
 
 	"github.com/blevesearch/mmap-go"
@@ -145,8 +146,11 @@ func ScanFooter(options *StoreOptions, fref *FileRef, fileName string,
 				return nil, ErrNoValidFooter
 			}
 
+			// A short read (io.EOF) means there is no complete footer
+			// start at this position, for example in the last, partial
+			// page of a file: keep scanning backwards.
 			n, err := fref.file.ReadAt(footerBeg, pos)
-			if err != nil {
+			if err != nil && err != io.EOF {
 				return nil, err
 			}
 
@@ -167,20 +171,24 @@ func ScanFooter(options *StoreOptions, fref *FileRef, fileName string,
 		if err := binary.Read(footerBegBuf, StoreEndian, &version); err != nil {
 			return nil, err
 		}
-		if version != StoreVersion {
-			return nil, fmt.Errorf("store: version mismatch, "+
-				"current: %v != found: %v", StoreVersion, version)
-		}
-
 		var length uint32
 		if err := binary.Read(footerBegBuf, StoreEndian, &length); err != nil {
 			return nil, err
 		}
 
+		// Whatever is not a complete, self-consistent footer (torn by a
+		// crash, or data that merely looks like a footer start) is not a
+		// footer: keep scanning backwards for an older one.
+		if version != StoreVersion ||
+			int(length) < footerBegLen+footerEndLen {
+			pos -= int64(StorePageSize)
+			continue
+		}
+
 		data := make([]byte, int64(length)-int64(footerBegLen))
 
 		n, err := fref.file.ReadAt(data, pos+int64(footerBegLen))
-		if err != nil {
+		if err != nil && err != io.EOF {
 			return nil, err
 		}
 
@@ -195,18 +203,15 @@ func ScanFooter(options *StoreOptions, fref *FileRef, fileName string,
 			if err = binary.Read(b, StoreEndian, &offset); err != nil {
 				return nil, err
 			}
-			if offset != pos {
-				return nil, fmt.Errorf("store: offset mismatch, "+
-					"wanted: %v != found: %v", offset, pos)
-			}
 
 			var length1 uint32
 			if err = binary.Read(b, StoreEndian, &length1); err != nil {
 				return nil, err
 			}
-			if length1 != length {
-				return nil, fmt.Errorf("store: length mismatch, "+
-					"wanted: %v != found: %v", length1, length)
+
+			if offset != pos || length1 != length {
+				pos -= int64(StorePageSize)
+				continue
 			}
 
 			f := &Footer{refs: 1, fileName: fileName, filePos: offset}
